@@ -35,9 +35,18 @@ def close_tree(a, b, rtol=1e-12):
     return len(la) == len(lb) and all(np.allclose(np.asarray(x), np.asarray(y), rtol=rtol, atol=1e-14) for x, y in zip(la, lb))
 
 
-def check_loss(name, L, P, batch, case):
+def check_loss(name, L, P, batch, case, jit_first=False):
+    try:
+        return _check_loss(name, L, P, batch, case, jit_first)
+    except Exception as ex:
+        return [{"detail": f"{name}: {'compiled evaluation first, then ' if jit_first else ''}repeated evaluations raised {type(ex).__name__}: {str(ex)[:200]}", "case": case}]
+
+
+def _check_loss(name, L, P, batch, case, jit_first):
     jax, jnp, np, eqx, jinns = jx()
     fails = []
+    if jit_first:       # all orders of evaluation: the compiled one may well be the first this process ever makes
+        r0 = jax.jit(lambda p, b: L.evaluate(p, b))(P, batch)
     # mutable python containers reachable from the arguments are compared by content
     before = (snap(P), snap(batch), snap(L))
     dict_ids = copy.deepcopy(jax.tree_util.tree_map(lambda x: np.asarray(x).tolist() if hasattr(x, "shape") else x, getattr(P, "eq_params", None)))
@@ -49,6 +58,8 @@ def check_loss(name, L, P, batch, case):
     now = jax.tree_util.tree_map(lambda x: np.asarray(x).tolist() if hasattr(x, "shape") else x, getattr(P, "eq_params", None))
     if now != dict_ids:
         fails.append(f"{name}: evaluate modified the caller's eq_params dictionary")
+    if jit_first and not close_tree(r0, r1):
+        fails.append(f"{name}: the eager result after a compiled first evaluation differs from it")
     r2 = L.evaluate(P, batch)
     if not close_tree(r1, r2, 0.0):
         fails.append(f"{name}: two evaluations on the same arguments differ")
@@ -102,6 +113,16 @@ def generate(tier, seed, casedir, variant):
     viol, samples, dist = [], [], {}
     n_eval = 0
     N = 8 if tier == "quick" else 40
+    # boundary terms first, and compiled first: Dirichlet and Neumann conditions in 1-D / 2-D, stationary or not (builders of C04)
+    import c04
+    for j in range(6 if tier == "quick" else 24):
+        bc = c04.gen(rng)
+        try:
+            Lb, Pb, bb = c04.build(bc)
+        except Exception as ex:
+            viol.append({"detail": f"boundary loss could not be built: {type(ex).__name__}: {str(ex)[:200]}", "case": dict(what="boundary")}); continue
+        viol += check_loss(f"loss with a boundary condition ({'stationary' if bc['statio'] else 'non-stationary'}, {bc['dim']}-D)", Lb, Pb, bb, dict(what="boundary", cfg=c04.jsonable(bc)), jit_first=True)
+        n_eval += 1; dist["boundary_jit_first"] = dist.get("boundary_jit_first", 0) + 1
     # single losses with optional parts (builders of C03) and with parameter batches / observed parameters (C12)
     for j in range(N):
         cfg = c03.with_parts(rng, rand_base(rng, ["ode", "statio", "nonstatio"][j % 3]))
@@ -183,6 +204,9 @@ def replay(rep, casedir, variant):
         cfg = c03.unjson(c["cfg"]); u, P, L = make_loss(cfg); viol = check_loss("single loss", L, P, make_batch(cfg), c)
     elif c.get("what") == "c12":
         viol = purity_c12(c12.unjson(c["cfg"]))
+    elif c.get("what") == "boundary":
+        import c04
+        Lb, Pb, bb = c04.build(c04.unjson(c["cfg"])); viol = check_loss("loss with a boundary condition", Lb, Pb, bb, c, jit_first=True)
     else:
         rng = random.Random(0)
         for name, g in generators(rng):
